@@ -12,10 +12,12 @@ enum Out {
     Handle,
     /// a Bytes that an out-of-contract call handed back: (address, length)
     Got(usize, usize),
+    /// an out-of-contract call of an unsafe method returned: no verdict, the history is abandoned
+    UnsafeReturned,
 }
 
 const NB: usize = 18;
-const NM: usize = 16;
+const NM: usize = 17;
 
 fn ooc_bytes(b: &mut Bytes, v: usize, k: usize) -> (Out, bool) {
     // returns (outcome, documented_noop)
@@ -188,6 +190,16 @@ fn ooc_mut(m: &mut BytesMut, v: usize, k: usize) -> (Out, bool) {
             }
             (Out::Unit, false)
         }
+        16 => {
+            // not a safe method: the unsafe contract of advance_mut is violated on purpose. The crate's
+            // implementation answers with a deterministic panic; no monitor demands that, but whether it
+            // panics enters the digest that C16 compares across build profiles.
+            if len == 0 {
+                panic!("(skipped: needs a non-empty buffer)");
+            }
+            unsafe { bytes::BufMut::advance_mut(m, usize::MAX - k.min(len - 1)) };
+            (Out::UnsafeReturned, true)
+        }
         _ => {
             let _ = m.split_to(usize::MAX - k);
             (Out::Handle, false)
@@ -220,6 +232,7 @@ pub fn ooc_step(d: &mut Driver, ch: &mut dyn Chooser, i: usize) {
     d.count("ooc_calls");
     let name = format!("{}ooc{v}", if is_b { "B" } else { "M" });
     let outcome;
+    let mut unsafe_returned = false;
     match r {
         Err(_) => {
             outcome = "panic";
@@ -227,6 +240,9 @@ pub fn ooc_step(d: &mut Driver, ch: &mut dyn Chooser, i: usize) {
         }
         Ok((out, noop)) => {
             outcome = "returned";
+            if matches!(out, Out::UnsafeReturned) {
+                unsafe_returned = true;
+            }
             if !noop {
                 d.viol("C13", &format!("{name}-returned"), &format!("out-of-contract call {name} (k={k}, len={len}, cap={cap}, repr {rname}) returned normally instead of panicking"));
             } else if let Out::Bool(false) = out {
@@ -249,6 +265,11 @@ pub fn ooc_step(d: &mut Driver, ch: &mut dyn Chooser, i: usize) {
     }
     d.dg(v as u64 * 2 + (outcome == "panic") as u64);
     d.cell(format!("OOC|{rname}|{name}|{outcome}"));
+    if unsafe_returned {
+        // the handle's length can no longer be trusted: abandon the history without a verdict
+        d.failed = true;
+        return;
+    }
     // whatever happened, nothing may have changed
     let after = d.snapshot();
     d.count("ooc_snapshots");
